@@ -75,7 +75,7 @@ class TwoTimeBathCorrelations(BaseAPIClass):
         self._initial_state = initial_state
 
         if system_correlations is None:
-            self._system_correlations = np.array([[]], dtype=NpDtype)
+            self._system_correlations = np.empty((0, 0), dtype=NpDtype)
         else:
             self._system_correlations = np.array(system_correlations)
         self._temp = bath.correlations.temperature
